@@ -204,6 +204,9 @@ def _check(case, tmp):
         d = _frames_equal(ef, wf, strict_dtype=(fmt == 'zip_pickle'))
         if d:
             raise Failure('unfaithful', '%s: frame %s read back differs from the one written: %s' % (fmt, nm, d))
+        # the frame comes back under its label and carries it as its name (the frames were written named by their labels)
+        if not eq(obs.canon_name(ef.name), obs.canon_name(nm)):
+            raise Failure('unfaithful', '%s: frame stored under %r came back named %r' % (fmt, nm, ef.name))
         model[nm] = ef
     mp = case['max_persist']
     bus = reader(fp, config=config, max_persist=mp)
@@ -219,6 +222,8 @@ def _check(case, tmp):
     def check_frame(label, got, what):
         if got is FrameDeferred or not isinstance(got, sf.Frame):
             raise Failure('deferred', '%s: %r returned %s instead of a loaded Frame' % (what, label, short(got)))
+        if not eq(obs.canon_name(got.name), obs.canon_name(model[label].name)):
+            raise Failure('wrong-frame', '%s: frame under %r is named %r, the eager load %r' % (what, label, got.name, model[label].name))
         d = _frames_equal(got, model[label], strict_dtype=True)
         if d:
             raise Failure('wrong-frame', '%s: frame under %r differs from the eager load: %s' % (what, label, d))
